@@ -964,6 +964,23 @@ def unroll_literal_for_loops(fn_node) -> int:
     return count
 
 
+def flip_empty_branches(fn_node) -> int:
+    """``if c: pass else: S`` -> ``if not c: S``; an ``else: pass`` is dropped (left behind by single-exit conversion)."""
+    count = 0
+    for n in ast.walk(fn_node):
+        if isinstance(n, ast.If):
+            if n.orelse and all(isinstance(x, ast.Pass) for x in n.orelse):
+                n.orelse = []
+                count += 1
+            if n.orelse and n.body and all(isinstance(x, ast.Pass) for x in n.body):
+                n.test = ast.copy_location(ast.UnaryOp(op=ast.Not(), operand=n.test), n.test)
+                n.body, n.orelse = n.orelse, []
+                count += 1
+    if count:
+        ast.fix_missing_locations(fn_node)
+    return count
+
+
 def beta_reduce_local_lambdas(fn_node) -> int:
     """``ok = lambda a, b: <expr>`` bound once in the function and only ever *called* there (never passed on, returned or
     stored): each call ``ok(x, y)`` is replaced by the expression with the arguments in place.  The free variables of a
@@ -1396,6 +1413,8 @@ def normalise(prog: Program) -> Tuple[Program, List[str]]:
             if nd:
                 changed_alias = True
                 log.append(f"{fn.qualname} ({nd} nested one-line def(s) rewritten as lambdas)")
+            if flip_empty_branches(fn.node):
+                changed_alias = True
             nb = beta_reduce_local_lambdas(fn.node)
             if nb:
                 changed_alias = True
